@@ -85,6 +85,13 @@ func main() {
 				os.Exit(2)
 			}
 			res = runWireCase(&c)
+		case "carrier":
+			var c CarrierCase
+			if err := json.Unmarshal(b, &c); err != nil {
+				fmt.Fprintf(os.Stderr, "line %d: %v\n", line, err)
+				os.Exit(2)
+			}
+			res = runCarrierCase(&c)
 		case "pool":
 			var c PoolCase
 			if err := json.Unmarshal(b, &c); err != nil {
